@@ -85,9 +85,23 @@ def generate(seed: int, tier: str) -> Dict[str, Any]:
             elif x < 0.84:
                 ops.append({"op": "split"})
             elif x < 0.92:
-                ops.append({"op": "promote", "twice": r.chance(0.5)})
+                ops.append({"op": "promote", "twice": r.chance(0.5), "pass_twice": r.chance(0.4)})
             else:
                 ops.append({"op": "restart", "kill_at": r.choice([None, None, r.randint(0, 25)])})
+        if r.chance(0.12):
+            # a concept that is promoted, loses a member over the following turns and is promoted again
+            a, b, c3 = r.sample(IDS[:5], 3)
+            ops = [{"op": "observe", "items": [[a, 0.9], [b, 0.9], [c3, 0.9]]}, {"op": "promote", "twice": False, "pass_twice": False}]
+            for _ in range(r.randint(3, 8)):
+                ops += [{"op": "observe", "items": [[a, 0.9], [b, 0.9]]}, {"op": "tick", "dt": r.choice([1, 2, 5])}]
+            ops += [{"op": "promote", "twice": r.chance(0.5), "pass_twice": False}, {"op": "merge"}]
+            graph["promotion"]["attach_weight"] = r.choice([0.05, 0.1, -1.0])
+            graph["merge"]["min_avg_w"] = 0.2
+            graph["decay"]["half_life_turns"] = r.choice([1, 2])
+            graph["update"] = {"mode": "additive", "alpha": r.choice([0.3, 0.7]), "clamp_min": -1.0, "clamp_max": 1.0}
+            graph["coactivation_threshold"] = 0.0
+            graph["observe_top_k"] = 64
+            graph["pair_cap_per_obs"] = 2048
         p["ops"] = ops
     else:
         world = E.gen_world(rng.stream("world"), n_agents=r.randint(1, 2), with_gel=r.chance(0.5), bad_ts=False)
@@ -218,6 +232,17 @@ def _api(p: Dict[str, Any], stats: Dict[str, int], shuffled: bool, gate_off: boo
                                 gel.apply_promotion(ctx, state, pr)
                             if state.get("graph") != once:
                                 bad("promotion-not-idempotent", "%s: applying the same promotion twice changed the graph" % where)
+                        if op.get("pass_twice"):
+                            # the whole pass again, as the orchestrator runs it every turn, with nothing observed in between
+                            g1 = copy.deepcopy(state.get("graph"))
+                            for pr in gel.promote_clusters(ctx, state, gel.merge_candidates(ctx, state))[:2]:
+                                gel.apply_promotion(ctx, state, pr)
+                            g2 = state.get("graph") or {}
+                            new_nodes = sorted(set((g2.get("nodes") or {})) - set((g1 or {}).get("nodes") or {}))
+                            new_edges = sorted(set((g2.get("edges") or {})) - set((g1 or {}).get("edges") or {}))
+                            if new_nodes or new_edges:
+                                bad("promotion-pass-not-idempotent", "%s: a second promotion pass with nothing observed in between added nodes %s edges %s" % (
+                                    where, new_nodes[:4], new_edges[:4]))
                     if not gate_off:
                         after = _edges(state)
                         for kk, rec in before.items():
